@@ -1,5 +1,6 @@
 import CatiiProofs.AggProofs
 import CatiiProofs.StackDirect
+import CatiiProofs.StridesGenBridge
 /-!
 # C03 — index cube, array cube and direct group-by agree on the shared aggregates
 
@@ -47,6 +48,38 @@ theorem strided_coordinates_injective (exts c c' : List Nat) (hl : c.length = ex
     (hr' : ∀ a < exts.length, c'.getD a 0 < exts.getD a 0) (h : flatIndex exts c = flatIndex exts c') : c = c' := by
   rw [flatIndex_eq_flat exts c hl, flatIndex_eq_flat exts c' hl'] at h
   exact flat_inj exts c c' hl hl' hr hr' h
+
+/-! ### the strided coordinates REGENERATED from `xcube._set_strides` / `strided_dims` on every run (`tools/translate_strides.py`)
+
+`StridesGen.multipliers` is the current `numpy.append(numpy.flip(numpy.cumprod(reversed(shape)))[1:], [1])`, `mintypeBits` the
+current ladder over `[uint8, uint16, uint32]` against `maxmult`, `stridedValue` the current `dim.astype(mintype)` followed
+by `* m`. -/
+
+/-- the stride of each dimension is the product of the LATER extents, and `maxmult` is the number of cells -/
+theorem generated_strides_are_mixed_radix (shape : List Nat) (hne : shape ≠ []) :
+    StridesGen.multipliers shape = strides shape ∧ StridesGen.maxmult shape = shape.foldl (· * ·) 1 :=
+  ⟨gen_multipliers_eq shape hne, gen_maxmult_eq shape⟩
+
+/-- "widened before multiplication": with the dtype `_set_strides` settles on, no in-range coordinate is changed by the cast,
+the sum of the strided dimensions is exactly the flat index of the cell, and that index fits the dtype -/
+theorem generated_strides_never_wrap (shape c : List Nat) (bits : Nat) (hne : shape ≠ [])
+    (hb : StridesGen.mintypeBits shape = some bits) (hl : c.length = shape.length)
+    (hr : ∀ a < shape.length, c.getD a 0 < shape.getD a 0) :
+    (∀ a < shape.length, c.getD a 0 < 2 ^ bits) ∧ stridedSum bits shape c = flatIndex shape c ∧
+      flatIndex shape c < 2 ^ bits :=
+  gen_strides_never_wrap shape c bits hne hb hl hr
+
+/-- hence two in-range cells never share a bin of the regenerated strided sum -/
+theorem generated_strided_sum_injective (shape c c' : List Nat) (bits : Nat) (hne : shape ≠ [])
+    (hb : StridesGen.mintypeBits shape = some bits) (hl : c.length = shape.length) (hl' : c'.length = shape.length)
+    (hr : ∀ a < shape.length, c.getD a 0 < shape.getD a 0) (hr' : ∀ a < shape.length, c'.getD a 0 < shape.getD a 0)
+    (h : stridedSum bits shape c = stridedSum bits shape c') : c = c' := by
+  rw [(gen_strides_never_wrap shape c bits hne hb hl hr).2.1, (gen_strides_never_wrap shape c' bits hne hb hl' hr').2.1] at h
+  exact strided_coordinates_injective shape c c' hl hl' hr hr' h
+
+-- non-vacuity: 300 x 3 cells need uint16; the first dimension's stride is 3; cell (299, 2) is bin 899
+example : StridesGen.mintypeBits [300, 3] = some 16 ∧ StridesGen.multipliers [300, 3] = [3, 1] ∧
+    stridedSum 16 [300, 3] [299, 2] = 899 := by decide +kernel
 
 /-- cubes over dimensions with extra axes (`(N, C)`, `(N, C, D)`): every block of the result — labelled by one
 higher-coordinate tuple per dimension, concatenated in dimension order — is the direct per-cell aggregate over the
